@@ -88,6 +88,7 @@ def random_state_vector(
         return np.divide(ret_vec, np.linalg.norm(ret_vec))
 
     # Schmidt rank is full, so ignore it.
+    dim = int(np.prod(dim))
     ret_vec = gen.random((dim, 1))
     if not is_real:
         ret_vec = ret_vec + 1j * gen.random((dim, 1))
